@@ -1,3 +1,4 @@
+import Gtree.Lemmas.SourceRefines
 import Gtree.Lemmas.Output
 import Gtree.Lemmas.PathLex
 /-
@@ -114,4 +115,18 @@ theorem C05_path (f : Fmt) (t : T) (h : AllElemT t) : (growRoot f t).map Visit.p
     have := growKids_paths f n h.1 ks [] 2 h.2 (by simp)
     simp [growRoot, specPaths, this, joinSlash]
 
+end Gtree
+
+namespace Gtree
+/-- Tie to the source: what a walk callback reads from its `WalkerNode` (`Name`, `Branch`, `Level`, `HasChild`, `Path`,
+    `Row` — simple_tree_walker.go, node.go, translated on this run) is the model's visit; in particular
+    `Row = Branch + " " + Name`, the name alone for a root. -/
+theorem C05_walker_node_is_the_source (v : Visit) (hroot : v.level = 1 → v.path = v.name) :
+    Src.WalkerNode.Name ⟨visitNode v⟩ = v.name ∧
+    Src.WalkerNode.Branch ⟨visitNode v⟩ = v.branch ∧
+    Src.WalkerNode.Level ⟨visitNode v⟩ = (v.level : Int) ∧
+    Src.WalkerNode.HasChild ⟨visitNode v⟩ = v.hasChild ∧
+    Src.WalkerNode.Path ⟨visitNode v⟩ = v.path ∧
+    Src.WalkerNode.Row ⟨visitNode v⟩ = v.row :=
+  walkerNode_src v hroot
 end Gtree
